@@ -288,4 +288,8 @@ func c06(c *ctx) {
 			r.OK("R5/identity/unsigned-fields-in-identity", c.p.Pos(applyTxs.Pos()), "identity does not depend on unsigned fields")
 		}
 	}
+
+	// ------------------------------------------------------------------ R6
+	// the account nonce is the replay floor of nonce-backed transactions: a rewrite of the record must not drop it
+	c.ruleRecordRebuiltWhole("R6", "fsm", "Account", map[string]string{}, 0)
 }
